@@ -1,7 +1,7 @@
 //! C07 correspondence driver: the real `Beneficiary`/`BeneficiaryHistory`, `from_gas`, `apply_to`,
 //! `BeneficiaryMode::apply` (through `grevm::verif::ben`) and revm's own `reward_beneficiary`.
 //!
-//! usage: ben <kind> <seed> <count> <outdir>      kind = hist | arith
+//! usage: ben <kind> <seed> <count> <outdir>      kind = hist | arith | block
 //! Writes <outdir>/ben_<kind>.in (one case per line: the model's input) and
 //! <outdir>/ben_<kind>.impl (what the real code returned). Every random choice derives from <seed>.
 //!
@@ -685,6 +685,137 @@ fn mode_case(rng: &mut Rng, inp: &mut String, out: &mut String) {
     }
 }
 
+// ------------------------------------------------------------------------------- block cases
+
+/// Whole blocks through the real `Scheduler` (parallel: deferred rewards folded at ordered commit;
+/// forced sequential: immediate mode) against in-order stock revm (`e2e::oracle`). No model is
+/// involved: any difference is a concrete failing input for the property itself.
+fn block_case(rng: &mut Rng, inp: &mut String, out: &mut String) {
+    use revm_primitives::TxKind;
+    use verif_harness::e2e::{self, BlockSpec, RunCfg};
+    let n_txs = rng.range(1, 10) as usize;
+    let n_eoa = n_txs + 2;
+    let mut world = e2e::make_world(n_eoa, rng);
+    let specs = [
+        SpecId::HOMESTEAD, SpecId::TANGERINE, SpecId::SPURIOUS_DRAGON, SpecId::BYZANTIUM, SpecId::ISTANBUL,
+        SpecId::BERLIN, SpecId::LONDON, SpecId::MERGE, SpecId::SHANGHAI, SpecId::CANCUN, SpecId::PRAGUE,
+        SpecId::OSAKA,
+    ];
+    let spec = if rng.chance(1, 2) { SpecId::CANCUN } else { *rng.pick(&specs) };
+    let london = spec >= SpecId::LONDON;
+    let basefee = if london { rng.below(4) } else { 0 };
+    // role of the fee recipient
+    let fresh = Address::with_last_byte(0xCB);
+    let role = rng.below(9);
+    let beneficiary = match role {
+        0 => fresh,                  // absent
+        1 => {
+            // present, one or two credits away from U256::MAX
+            world.db.accounts.insert(fresh, AccountInfo { balance: U256::MAX - U256::from(rng.below(60_000)), ..Default::default() });
+            fresh
+        }
+        2 => {
+            // an existing empty account
+            world.db.accounts.insert(fresh, AccountInfo::default());
+            fresh
+        }
+        3 => e2e::eoa(0),            // a sender
+        4 => e2e::eoa(n_eoa - 1),    // a plain recipient
+        5 => world.mix,              // a contract with storage
+        6 => world.victims[0],       // self-destructs in the block
+        7 => world.forward,
+        _ => e2e::MINER,
+    };
+    let mut nonces = std::collections::HashMap::<Address, u64>::new();
+    let (mut txs, mut descr) = (Vec::new(), Vec::new());
+    for i in 0..n_txs {
+        let caller = if role == 3 && rng.chance(1, 3) { e2e::eoa(0) } else { e2e::eoa(1 + i) };
+        let nonce = *nonces.get(&caller).unwrap_or(&0);
+        nonces.insert(caller, nonce + 1);
+        // fee: zero tip (price == base fee), small tip, or larger
+        let tip = match rng.below(5) {
+            0 | 1 => 0u128,
+            2 => 1,
+            3 => rng.below(5) as u128,
+            _ => 1_000_000_007,
+        };
+        let mut tx = TxEnv { caller, gas_limit: 300_000, gas_price: basefee as u128 + tip, nonce, ..Default::default() };
+        let mut d = String::new();
+        if london && rng.chance(1, 2) {
+            tx.tx_type = 2;
+            tx.gas_price = basefee as u128 + tip + rng.below(3) as u128; // fee cap above what is paid
+            tx.gas_priority_fee = Some(tip);
+            d.push_str("1559 ");
+        }
+        match rng.below(100) {
+            0..=24 => {
+                tx.kind = TxKind::Call(beneficiary);
+                tx.value = U256::from(rng.below(1000));
+                d.push_str("pay-beneficiary");
+            }
+            25..=39 => {
+                tx.kind = TxKind::Call(world.probe);
+                tx.data = Bytes::from(e2e::addr_word(beneficiary).to_vec());
+                d.push_str("probe-beneficiary");
+            }
+            40..=54 => {
+                tx.kind = TxKind::Call(world.cbprobe);
+                d.push_str("coinbase-probe");
+            }
+            55..=64 => {
+                tx.kind = TxKind::Call(world.forward);
+                tx.value = U256::from(rng.below(50));
+                tx.data = Bytes::from(e2e::addr_word(beneficiary).to_vec());
+                d.push_str("forward-to-beneficiary");
+            }
+            65..=74 => {
+                let v = world.victims[rng.below(2) as usize];
+                tx.kind = TxKind::Call(v);
+                d.push_str(&format!("selfdestruct {v:x}"));
+            }
+            75..=84 => {
+                let (a, b) = (rng.below(4), rng.below(4));
+                let mut data = Vec::new();
+                data.extend_from_slice(&e2e::word(a));
+                data.extend_from_slice(&e2e::word(b));
+                data.extend_from_slice(&e2e::word(0));
+                tx.kind = TxKind::Call(world.mix);
+                tx.data = Bytes::from(data);
+                d.push_str("mix");
+            }
+            _ => {
+                let to = e2e::eoa(rng.below(n_eoa as u64) as usize);
+                tx.kind = TxKind::Call(to);
+                tx.value = U256::from(rng.below(1000));
+                tx.gas_limit = 21_000;
+                d.push_str(&format!("transfer to {to:x}"));
+            }
+        }
+        write!(d, " tip={tip} from={caller:x}").unwrap();
+        txs.push(tx);
+        descr.push(d);
+    }
+    let block = BlockSpec { spec, disable_nonce_check: false, basefee, beneficiary, txs, descr };
+    write!(inp, "block spec={:?} basefee={} role={} n={} [{}]", spec, basefee, role, n_txs, block.descr.join("; ")).unwrap();
+    let oracle = e2e::oracle(&world.db, &block);
+    let mut diffs = Vec::new();
+    let workers = rng.range(2, 4) as usize;
+    for rc in [
+        RunCfg { workers, ..Default::default() },
+        RunCfg { workers, force_sequential: true, ..Default::default() },
+    ] {
+        let run = e2e::run_grevm(world.db.clone_data(), &block, &rc, None, 0);
+        for df in e2e::compare(&oracle, &run.result) {
+            diffs.push(format!("{}: {df}", if rc.force_sequential { "sequential" } else { "parallel" }));
+        }
+    }
+    if diffs.is_empty() {
+        write!(out, " OK ben-before-last={}", oracle.ben_before.last().cloned().unwrap_or_default()).unwrap();
+    } else {
+        write!(out, " X:block-differs-from-in-order-revm {}", diffs.join(" | ").replace('\n', " ")).unwrap();
+    }
+}
+
 fn main() {
     let a: Vec<String> = std::env::args().collect();
     let (kind, seed, count, outdir) = (&a[1], a[2].parse::<u64>().unwrap(), a[3].parse::<u64>().unwrap(), &a[4]);
@@ -700,6 +831,7 @@ fn main() {
                 2 => apply_case(&mut case_rng, &mut inp, &mut out),
                 _ => mode_case(&mut case_rng, &mut inp, &mut out),
             },
+            "block" => block_case(&mut case_rng, &mut inp, &mut out),
             k => {
                 eprintln!("unknown kind {k}");
                 std::process::exit(2)
